@@ -29,9 +29,14 @@ class ElementProgram:
         # The text that token positions refer to.
         self.source = source
         tokens = tokenizer(source, filename)
-        parser = ElementParser(
-            tokens, self.DEFAULT_NAMESPACES, self.restricted_namespace
-        )
+        if mode == "text":
+            # In text mode, there is no markup: every token is character
+            # data, even if it happens to start with "<".
+            parser = (("text", (token, )) for token in tokens)
+        else:
+            parser = ElementParser(
+                tokens, self.DEFAULT_NAMESPACES, self.restricted_namespace
+            )
 
         self.body = []
 
